@@ -33,7 +33,8 @@ Models == {"valid",               \* accepted everywhere
            "import_error",
            "pattern_features",    \* patterns with features some targets cannot transpile
            "surrogate",           \* a lone surrogate in an enumeration literal: cannot be encoded on write
-           "name_collision"}      \* names that collide after case conversion in some targets
+           "name_collision",      \* property names that collide after case conversion in some targets
+           "cs_name_collision"}   \* class names that collide in C# (verify_for_types fails)
 
 ArgDefects == {"none", "model_not_file", "snippets_not_dir", "output_not_dir", "out_blocked"}
 
